@@ -37,6 +37,8 @@ fn make_image(rng: &mut Rng, fmt: &str) -> Vec<u8> {
 }
 
 struct FileCase {
+    /// a malicious member announced a hash that is not the hash of what the blob decrypts to
+    forged: bool,
     data: Vec<u8>,
     up: EncryptedMediaUpload,
     tag: Tag,
@@ -116,6 +118,35 @@ fn media_history(prop: &str, i: u64, rng: &mut Rng, out: &mut Outcome, dir: &std
             out.count("uploads_with_non_canonical_mime_spelling");
         }
         let up = with_mdk!(w.clients[sender].mdk, x => x.media_manager(gid.clone()).encrypt_for_upload(&data, &spelled, &fname));
+        // one upload in six is forged by its (malicious) sender: key and associated data are derived
+        // for the hash of `data`, the encrypted plaintext is something else. Nobody may get those
+        // other bytes back: decryption has to fail on the hash it checks after opening the AEAD.
+        let forged = up.is_ok() && !mime.starts_with("image/") && rng.chance(17);
+        let up = if forged {
+            use mdk_core::encrypted_media::crypto::{DEFAULT_SCHEME_VERSION, derive_encryption_key, encrypt_data_with_aad, generate_encryption_nonce};
+            let honest = up.unwrap();
+            let other: Vec<u8> = { let mut o = data.clone(); o.extend_from_slice(b"-not-what-was-announced"); o };
+            let forged_up = with_mdk!(w.clients[sender].mdk, x => {
+                derive_encryption_key(x, &gid, DEFAULT_SCHEME_VERSION, &honest.original_hash, &honest.mime_type, &honest.filename).ok().and_then(|key| {
+                    let nonce = generate_encryption_nonce();
+                    encrypt_data_with_aad(&other, &key, &nonce, DEFAULT_SCHEME_VERSION, &honest.original_hash, &honest.mime_type, &honest.filename).ok().map(|ct| (ct, *nonce))
+                })
+            });
+            match forged_up {
+                Some((ct, nonce)) => {
+                    out.count("forged_uploads_announced_hash_differs_from_plaintext");
+                    let mut u = honest;
+                    u.encrypted_hash = Sha256::digest(&ct).into();
+                    u.encrypted_size = ct.len() as u64;
+                    u.encrypted_data = ct;
+                    u.nonce = nonce;
+                    Ok(u)
+                }
+                None => Ok(honest),
+            }
+        } else {
+            up
+        };
         let up = match up {
             Ok(u) => u,
             Err(e) => {
@@ -137,7 +168,7 @@ fn media_history(prop: &str, i: u64, rng: &mut Rng, out: &mut Outcome, dir: &std
         for m in members {
             pending_for.entry(m).or_default().push(idx);
         }
-        files.push(FileCase { data, up, tag, announce: idx, epoch: at.1, members: members.iter().copied().collect() });
+        files.push(FileCase { forged, data, up, tag, announce: idx, epoch: at.1, members: members.iter().copied().collect() });
         // 0..6 commits after the file; every receiver processes its backlog (announce + commits)
         // either announce-first or commits-first
         let k = rng.below(7);
@@ -198,6 +229,9 @@ fn media_history(prop: &str, i: u64, rng: &mut Rng, out: &mut Outcome, dir: &std
                     if h != expect_hash || (!is_image && bytes != f.data) {
                         out.violation(format!("{prop}|member-decrypts-different-bytes"), format!("file {fi}: member c{m} decrypted {} bytes whose hash differs from the original", bytes.len()), json!({"scenario": i}));
                     }
+                }
+                Err(_) if f.forged => {
+                    out.count("forged_uploads_refused");
                 }
                 Err(e) => {
                     // within the retention of exporter secrets (5 past epochs) this must work
